@@ -260,7 +260,7 @@ func (c *Ctx) rulesR3queue() {
 		if topFunc(f).Pkg == nil || relPkg(topFunc(f).Pkg.Pkg.Path()) != pm {
 			continue
 		}
-		if _, ex := lockExemptFuncs[funcKey(topFunc(f))]; ex {
+		if c.lockExempt(f) {
 			continue
 		}
 		for i, w := range writesOfFieldIn(f, fQ) {
@@ -1215,7 +1215,9 @@ func (c *Ctx) rulesR3rpc2() {
 				c.check(good, "C09.muxid", "Mux.accept numbers servers with the bare connection counter", s.Pos(), "the id is "+shown+": not the plain result of countConns.Add, ids can repeat among live servers")
 			}
 		}
-		visit(acc)
+		for _, hf := range c.hostedFns(acc) {
+			visit(hf)
+		}
 		if n < 1 {
 			c.undecided("C09.muxid: Mux.accept does not call NewServer")
 		}
